@@ -374,12 +374,14 @@ func (gen *generator) irAttrGroupDef(new *ir.AttrGroupDef, oldDefs []*ast.AttrGr
 	present := make(map[string]bool)
 	for _, oldDef := range oldDefs {
 		for _, oldFuncAttr := range oldDef.FuncAttrs() {
-			lit := oldFuncAttr.LlvmNode().Text()
+			funcAttr := gen.irFuncAttribute(oldFuncAttr)
+			// Identify duplicates by the attribute rather than by its spelling in
+			// the input (e.g. "a" and "\61" denote the same string attribute).
+			lit := funcAttr.String()
 			if present[lit] {
 				// skip duplicate attribute.
 				continue
 			}
-			funcAttr := gen.irFuncAttribute(oldFuncAttr)
 			new.FuncAttrs = append(new.FuncAttrs, funcAttr)
 			present[lit] = true
 		}
